@@ -289,7 +289,7 @@ def run(ctx):
         w1 = g.workflow("da")
         w1["on"] = [{"id": f"ev{k}", "uses": "acts.event.manual"} for k in range(r.range(0, 3))]
         g2 = FullGen(r.fork("b"), dup_p=0)
-        w2 = g2.workflow("db")
+        w2 = g2.workflow("da_b")
         w2["on"] = [{"id": "ev0", "uses": "acts.event.manual"}]
         # a later edition of model `da` whose `on` list has grown (new entries after, and sometimes before, the old ones)
         import copy
@@ -301,21 +301,21 @@ def run(ctx):
         seen_ids = set()
         w1b["on"] = [a for a in (w1["on"] + extra if not r.chance(1, 4) else extra + w1["on"]) if not (a["id"] in seen_ids or seen_ids.add(a["id"]))]
         ops = []
-        nd = {"da": 0, "db": 0}
+        nd = {"da": 0, "da_b": 0}
         for _ in range(r.range(2, 7)):
             k = r.below(10)
             if k < 5:
                 which = r.pick([0, 1, 2, 2])
                 ops.append(["deploy", which, r.pick(["", "yml"])])
-                nd["db" if which == 1 else "da"] += 1
+                nd["da_b" if which == 1 else "da"] += 1
             elif k < 7:
-                which = r.pick(["da", "db"])
+                which = r.pick(["da", "da_b"])
                 ops.append(["rm_model", which])
                 nd[which] = 0
             else:
-                ops.append(["start", r.pick(["nosuch", "da", "db"]), {"pid": "px%d" % len(ops)}])
+                ops.append(["start", r.pick(["nosuch", "da", "da_b"]), {"pid": "px%d" % len(ops)}])
             ops.append(["model_get", "da", "json"])
-            ops.append(["model_get", "db", "json"])
+            ops.append(["model_get", "da_b", "json"])
             ops.append(["rows", "events"])
         scs.append({"id": f"dep-{i}", "config": {"keep": True, "store": "sqlite" if i % 2 == 1 else "mem"}, "models": [w1, w2, w1b], "ops": ops})
     res = ctx.harness("run", scs, tag="d")
@@ -324,16 +324,16 @@ def run(ctx):
         if r.get("panic") or r.get("crashed"):
             ctx.violation("C20|engine-panic", f"engine panicked: {str(r.get('panic'))[:100]}", {"scenario": sc})
             continue
-        ver = {"da": 0, "db": 0}
+        ver = {"da": 0, "da_b": 0}
         edition = {}
         ons_of = [[a["id"] for a in m.get("on", [])] for m in sc["models"]]
-        live_events = {"da": set(), "db": set()}
+        live_events = {"da": set(), "da_b": set()}
         by_op = {st["op"]: st["obs"] for st in r.get("steps", [])}
         bad = None
         for i, op in enumerate(sc["ops"]):
             obs = by_op.get(i, [])
             if op[0] == "deploy":
-                mid = "db" if op[1] == 1 else "da"
+                mid = "da_b" if op[1] == 1 else "da"
                 ok = any(o.get("k") == "res" and o.get("ok") for o in obs)
                 if not ok:
                     bad = ("deploy-rejected", f"deploy of a valid model failed: {obs}")
@@ -376,7 +376,7 @@ def run(ctx):
             elif op[0] == "rows":
                 rows = [o for o in obs if o.get("k") == "rows"]
                 ids = set(x["id"] for x in (rows[0].get("rows") or [])) if rows else set()
-                want = live_events["da"] | live_events["db"]
+                want = live_events["da"] | live_events["da_b"]
                 if ids != want:
                     bad = ("events", f"registered events {sorted(ids)}, expected one per 'on' entry of the deployed models {sorted(want)}")
                     break
